@@ -94,6 +94,22 @@ def gen_case(seed):
         sc["script"] = [{"t": round(t0 + i * 0.0015, 4), "side": snd, "op": "ping", "uid": 5000 + i} for i in range(n)]
         sc["horizon"] = 60.0
         sc["mode"] = "many-ranges"
+    r8 = random.Random("c12-burst/%s" % seed)
+    if r8.random() < 0.05:
+        # directed: the same, but as one burst: a peer that skips every second packet number (or whose every second
+        # packet is lost) delivers 70-140 small ack-eliciting packets within one acknowledgement delay, before the
+        # receiver's ACK timer fires once: more ranges than one ACK frame may carry, and each packet was the highest on
+        # arrival
+        vic = r8.choice(["client", "server"])
+        n = r8.choice([70, 100, 140])
+        for k in ("resume", "resume_forget"):
+            sc["opts"].pop(k, None)
+        sc["fates"] = {"delay": sc["fates"]["delay"], "adv_seconds": 0.0, "loss": 0.0}
+        t0 = 1.0
+        sc["script"] = [{"t": round(t0 + (i // 25) * 0.0001, 4), "side": vic, "op": "forge", "ptype": "1rtt", "frames_hex": "01", "pn_gap": r8.choice([1, 1, 2])} for i in range(n)]
+        sc["script"] += [{"t": t0 + 1.0, "side": "client", "op": "ping", "uid": 6000}, {"t": t0 + 2.0, "side": "server", "op": "ping", "uid": 6001}]
+        sc["horizon"] = 30.0
+        sc["mode"] = "many-ranges-burst"
     r3 = random.Random("c12-late0rtt/%s" % seed)
     if r3.random() < 0.12:
         # directed: a resumed session whose 0-RTT datagram (early data written just after the first flight left) is held
@@ -155,7 +171,7 @@ def run_batch(batch):
                            counters=("ack_frames_checked", "acked_numbers_checked", "timeliness_obligations", "timeliness_met", "next_tx_obligations", "exempt", "exempt_not_opened", "opened_and_owed", "path_changes", "exempt_path_switched"),
                            nontrivial=lambda s: am.timeliness_met > 0 and am.ack_frames_checked > 5, sig_extra=(sc["mode"],))
         res.maxc("max_ranges_in_one_ack_frame", am.max_ranges)
-        if sc["mode"] == "many-ranges":
+        if sc["mode"] in ("many-ranges", "many-ranges-burst"):
             res.count("many_ranges_cases")
             res.count("many_ranges_cases_reaching_32_ranges", 1 if am.max_ranges >= 32 else 0)
         if ok:
